@@ -54,6 +54,7 @@ let cmd_c02 c =
           (incr cnt; Buffer.add_string buf (Printf.sprintf " %d %d" i j)) done done;
     out "adjm" (string_of_int !cnt ^ Buffer.contents buf)
   end;
+  out "generic" (s_nat (generic_count l));
   out "q_vn" (s_list s_natlists (all_vertex_neighbours l));
   out "q_en" (s_list (s_list s_nat) (all_q_edge_neighbours l));
   out "q_cw" (s_list s_natlists (all_clockwise_about l));
